@@ -25,3 +25,6 @@ Proof.
   pose proof (Z.mod_pos_bound x 18446744073709551616 ltac:(lia)).
   destruct (Z.ltb_spec (x mod 18446744073709551616) 9223372036854775808); lia.
 Qed.
+
+Lemma zlen_app_b {A} (a b : list A) : zlen (a ++ b) = zlen a + zlen b.
+Proof. unfold zlen. rewrite app_length. lia. Qed.
